@@ -1,6 +1,8 @@
 package PVM
 
 import (
+	"encoding/binary"
+
 	"github.com/New-JAMneration/JAM-Protocol/internal/service_account"
 	"github.com/New-JAMneration/JAM-Protocol/internal/types"
 )
@@ -386,8 +388,15 @@ func invoke(input OmegaInput) (output OmegaOutput) {
 		}
 	}
 	// psi preprocess
-	tmpProgram := Program{
-		InstructionData: input.Addition.IntegratedPVMMap[n].ProgramCode,
+	// m[n]_p is the program blob: code, jump table and bitmask come from deblob(p)
+	tmpProgram, deblobExit := DeBlobProgramCode(input.Addition.IntegratedPVMMap[n].ProgramCode)
+	if deblobExit != ExitContinue {
+		// machine() only stores blobs that deblob; treat anything else as an inner panic
+		input.VM.Registers[7] = INNERPANIC
+		return OmegaOutput{
+			ExitReason: ExitContinue,
+			Addition:   input.Addition,
+		}
 	}
 	tempMemory := input.Addition.IntegratedPVMMap[n].Memory
 	// wrap m[n]_p (program),  w (registers),  m[n]_u (memory),   g (gas) into NewHost
@@ -399,13 +408,10 @@ func invoke(input OmegaInput) (output OmegaOutput) {
 	c, pcPrime = tempHost.Interpreter.SingleStepInvoke(input.Addition.IntegratedPVMMap[n].PC)
 
 	// mu* = mu
-	encoder := types.NewEncoder()
 	data = types.ByteSequence(make([]byte, offset))
-	encoded, _ := encoder.Encode(&tempHost.Interpreter.Gas) // encode g'
-	copy(data, encoded)
+	binary.LittleEndian.PutUint64(data[:8], uint64(tempHost.Interpreter.Gas)) // encode g'
 	for i := uint64(1); i < offset/8; i++ {
-		encoded, _ := encoder.Encode(&tempHost.Interpreter.Registers[i-1])
-		copy(data[8*i:8*(i+1)], encoded)
+		binary.LittleEndian.PutUint64(data[8*i:8*(i+1)], tempHost.Interpreter.Registers[i-1])
 	}
 	// write data into memory (mu)
 	input.VM.Memory.Write(o, data)
@@ -414,7 +420,7 @@ func invoke(input OmegaInput) (output OmegaOutput) {
 	tmp := input.Addition.IntegratedPVMMap[n]
 	tmp.Memory = *tempHost.Interpreter.Memory
 	if c.GetReasonType() == HOST_CALL {
-		tmp.PC = pcPrime + 1 + ProgramCounter(skip(int(pcPrime), input.Addition.Program.Bitmasks))
+		tmp.PC = pcPrime + 1 + ProgramCounter(skip(int(pcPrime), tmpProgram.Bitmasks))
 	} else {
 		tmp.PC = pcPrime
 	}
